@@ -464,9 +464,28 @@ def check_aligned_pairs(ctx, rule: str):
                 for n in ast.walk(o):
                     if isinstance(n, ast.Attribute) and n.attr in ("values", "array") or (isinstance(n, ast.Call) and call_name(n) in ("to_numpy", "tolist", "to_list", "list", "array", "reset_index")):
                         bad.append(n)
-        ok = bool(pair_calls) and not bad
-        ctx.ob(rule, construct(fi, "feature and target are paired through index-aligned pandas operations"), ok, loc(fi, bad[0] if bad else None),
-               "" if ok else ("no groupby/crosstab pairing found" if not pair_calls else f"`{short(bad[0])}` drops the index: rows are paired by position, which breaks for permuted / relabelled indices"))
+        # the pairing itself is one pandas call that receives both the target and the feature (the
+        # target grouped by the feature, or their cross table): row positions collected on one side
+        # (`groupby(..).indices`) and used to index the other pair rows by position
+        target = "y"
+        paired = []
+        for c in pair_calls:
+            names = {n.id for o in (list(c.args) + [k.value for k in c.keywords] + ([c.func.value] if isinstance(c.func, ast.Attribute) else [])) for n in ast.walk(o) if isinstance(n, ast.Name)}
+            if target in names and names - {target}:
+                paired.append(c)
+        positional = [n for n in ast.walk(fi.node) if isinstance(n, ast.Attribute) and n.attr == "indices"]
+        ok = bool(pair_calls) and not bad and bool(paired) and not positional
+        why = ""
+        if not ok:
+            if not pair_calls:
+                why = "no groupby/crosstab pairing found"
+            elif bad:
+                why = f"`{short(bad[0])}` drops the index: rows are paired by position, which breaks for permuted / relabelled indices"
+            elif positional:
+                why = f"`{short(positional[0])}` are row positions: indexing the target with them pairs rows by position (or by label on an integer index)"
+            else:
+                why = "no groupby / crosstab call receives both the target and the feature: they are paired outside pandas' index alignment"
+        ctx.ob(rule, construct(fi, "feature and target are paired through index-aligned pandas operations"), ok, loc(fi, (bad or positional or [None])[0]), why)
 
 
 def check_row_order_free(ctx, rule: str):
